@@ -120,3 +120,52 @@ YK_HARNESS H_c16_two_cycles() {
     if (leave_open) YK_REACH();
     YK_REACH();
 }
+
+// ---- C14, sequential half: with no other enter/leave in progress, enter succeeds iff a slot is free; the token is a
+// free slot; the session counts for reclamation (begin_epoch != 0) from the return of enter until leave; a released
+// slot can be acquired again.  The slot table is ARBITRARY (any history of enters/leaves).
+YK_HARNESS H_c14_enter_leave_seq() {
+    auto& tab = thread_info_table::get_thread_info_table();
+    bool running[SESS];
+    unsigned open = 0;
+    for (unsigned i = 0; i < SESS; ++i) {
+        running[i] = yk_nondet_bool();
+        tab[i].set_running(running[i]);
+        tab[i].set_begin_epoch(running[i] ? 1 + (yk_nondet_u64() >> 1) : 0);
+        if (running[i]) ++open;
+    }
+    Token t = nullptr;
+    status rc = enter(t);
+    if (open == SESS) {
+        YK_ASSERT(rc == status::WARN_MAX_SESSIONS);
+        YK_REACH();
+    } else {
+        YK_ASSERT(rc == status::OK);
+        bool is_slot = false;
+        for (unsigned i = 0; i < SESS; ++i) {
+            if (t == &tab[i]) {
+                is_slot = true;
+                YK_ASSERT(!running[i]); // never a slot that is already open
+            } else {
+                YK_ASSERT(tab[i].get_running() == running[i]); // other sessions untouched
+            }
+        }
+        YK_ASSERT(is_slot);
+        auto* ti = static_cast<thread_info*>(t);
+        YK_ASSERT(ti->get_running());
+        YK_ASSERT(ti->get_begin_epoch() != 0);                            // counted by the reclamation protocol ...
+        YK_ASSERT(ti->get_begin_epoch() == epoch_management::get_epoch()); // ... with the current epoch
+        unsigned now_open = 0;
+        for (unsigned i = 0; i < SESS; ++i) now_open += tab[i].get_running() ? 1 : 0;
+        YK_ASSERT(now_open == open + 1 && now_open <= SESS);
+        YK_ASSERT(leave(t) == status::OK);
+        YK_ASSERT(!ti->get_running() && ti->get_begin_epoch() == 0);
+        Token t2 = nullptr;
+        YK_ASSERT(enter(t2) == status::OK); // the released slot (or another free one) can be acquired again
+        if (open + 1 == SESS) {
+            YK_ASSERT(t2 == t);
+            YK_REACH();
+        }
+        YK_REACH();
+    }
+}
